@@ -256,6 +256,10 @@ def rule_addarg(ctx):
     src = full(f.node)
     ctx.ob('C06.coerce', f'{f.fq}:infer-when-absent', f'if not {t}: {t} = self._get_arg_type({v})' in src,
            'the tag is inferred from the value exactly when no tag was given', f.node, mod)
+    ac = ctx.repo.func('sc3.base._osclib:OscBundleBuilder.add_content')
+    grows = [c for c in U.calls(ac.node) if isinstance(c.func, ast.Attribute) and norm(c.func.value) == 'self._contents']
+    ctx.ob('C06.coerce', f'{ac.fq}:append-only', [norm(c) for c in grows] == [f'self._contents.append({ac.params[1]})'],
+           f'bundle elements are kept in the order they were added; found {[norm(c) for c in grows]}', ac.node, ac.module)
     b = ctx.repo.func('sc3.base._osclib:OscMessageBuilder.build')
     bsrc = full(b.node)
     ok = "arg_types = ''.join([arg[0] for arg in self._args])" in bsrc and 'for arg_type, value in self._args:' in bsrc
